@@ -64,7 +64,7 @@ func (s *Sim) opQMisuse(op *Op) {
 	}
 	fi := s.filters[abs(op.F)%len(s.filters)]
 	f := fi.B
-	if op.W == 0 && fi.A.CanRegister() {
+	if op.W == 0 && fi.Typed() {
 		f = fi.A
 	}
 	// the generic components must include one with non-zero size, otherwise
